@@ -255,7 +255,8 @@ def inline_new_async_helpers(bodies, known, done):
 
 def inline_new_helpers(recs, known, rounds=4):
     """recs: list of fact records. Returns (new list of records, [(helper, callers..)])"""
-    bodies = {strip_generics(r["def"]): r for r in recs if r.get("rec") == "body"}
+    # derive-generated impls live in anonymous consts (`module::_::<impl Tr for X>::f`); strip_generics would make them collide: key them raw
+    bodies = {(r["def"] if "::_::" in r["def"] else strip_generics(r["def"])): r for r in recs if r.get("rec") == "body"}
     done = []
     for _ in range(rounds):
         cands = candidates(bodies, known)
